@@ -450,14 +450,12 @@ fn convert_components_to_contours(context: &Context, original: &Glyph) -> Result
     let mut simple = GlyphBuilder::from(original.clone());
     simple.clear_components();
 
-    // Note that here we care about the entire component transform
-    let mut visited: HashSet<(NormalizedLocation, HashableComponent)> = HashSet::new();
+    // Every entry of the queue is one instantiation of a glyph and contributes its contours, also when the same
+    // base is reached twice with the same accumulated transform (identical instantiations are permitted,
+    // <https://github.com/googlefonts/fontc/issues/1115>). Component cycles are rejected before we get here.
     while let Some((loc, component)) = frontier.pop_front() {
         let component_base = component.base.clone();
         let component_affine = component.affine();
-        if !visited.insert((loc.clone(), component)) {
-            continue;
-        }
 
         let Some(referenced_glyph) = context.try_get_glyph(component_base.clone()) else {
             log::warn!(
